@@ -837,3 +837,66 @@ pub fn replay_validate(case: &Value, rep: &mut Report, rng: &mut Rng) {
         }
     }
 }
+
+/// Architecture summary for the slot-addressing trace: [kind, filters, bias] per layer (from the description).
+fn slot_arch(arch: &Value) -> Value {
+    fn one(l: &Value) -> Value {
+        match str_of(l, "kind") {
+            "dense" => json!({"kind": "dense", "filters": 1, "bias": l.get("bias").and_then(|b| b.as_bool()).unwrap_or(false)}),
+            "conv" => json!({"kind": "conv", "filters": l["filters"], "bias": false}),
+            "deconv" => json!({"kind": "deconv", "filters": l["filters"], "bias": false}),
+            "pool" => json!({"kind": "pool", "filters": 0, "bias": false}),
+            "feedback" => {
+                let loops = usize_of(l, "loops");
+                let mut inner = Vec::new();
+                for _ in 0..loops {
+                    for i in l["layers"].as_array().unwrap() {
+                        inner.push(one(i));
+                    }
+                }
+                json!({"kind": "fb", "filters": 0, "bias": false, "inner": inner})
+            }
+            k => panic!("harness: kind {}", k),
+        }
+    }
+    Value::Array(arch["layers"].as_array().unwrap().iter().map(one).collect())
+}
+
+/// C03 (implementation -> specification): the (layer, filter, bias, stepnr) slot of every Optimizer::update call
+/// made by real training runs, for validation against OptSlots.tla.
+pub fn record_optslots(seed: u64, tier: &str, trace: &mut Vec<Value>, rep: &mut Report) {
+    let mut rng = Rng::new(seed ^ 0x0C03);
+    let mut archs = architectures();
+    archs.extend(thread_jobs());
+    let kinds_menu = ["dense", "conv", "deconv", "pool", "fb"];
+    for _ in 0..(if tier == "thorough" { 30 } else { 6 }) {
+        let k = rng.range(1, 4) as usize;
+        let kinds: Vec<String> = (0..k).map(|_| rng.pick(&kinds_menu).to_string()).collect();
+        let drop: Vec<bool> = kinds.iter().map(|_| false).collect();
+        archs.push(flags_arch(&kinds, &drop));
+    }
+    let mut runs = 0u64;
+    for arch in archs {
+        let n = rng.range(2, 5) as usize;
+        let spec = RunSpec { arch: arch.clone(), n, batch: rng.range(1, 3) as usize, epochs: rng.range(1, 3) as usize, nval: 0, tol: 1,
+                             threads: 2, jitter: 0, data_seed: rng.next() };
+        rep.checks += 1;
+        match run_job(&spec, false) {
+            Err(msg) => rep.mismatch("C03", "training_panicked_in_slot_driver", "optslots", json!({"panic": msg, "arch": arch}), &json!({})),
+            Ok(res) => {
+                trace.push(json!({"event": "Net", "run": runs, "layers": slot_arch(&arch)}));
+                for line in res.events {
+                    let v: Value = serde_json::from_str(&line).unwrap();
+                    if v["event"] == "Update" || v["event"] == "OptUpdate" {
+                        trace.push(v);
+                    }
+                }
+                trace.push(json!({"event": "End"}));
+                rep.nontrivial(format!("optslots:{}", runs));
+                runs += 1;
+            }
+        }
+        rep.cases += 1;
+    }
+    rep.count("trace_runs", runs);
+}
